@@ -202,6 +202,10 @@ pub struct BindPolicy {
     pub batch: u8,
     pub order: Vec<u8>,
     pub enabled: bool,
+    /// the responding application calls `BindRequest::manual_ping()` on every request before it decides (a public method of the
+    /// request object; it must not influence the outcome)
+    #[serde(default)]
+    pub ping_first: bool,
 }
 
 #[derive(Clone, Debug, Hash, PartialEq, Eq, Serialize, Deserialize)]
@@ -352,7 +356,7 @@ pub struct Case {
 
 impl Default for BindPolicy {
     fn default() -> Self {
-        BindPolicy { answers: vec![], batch: 1, order: vec![], enabled: false }
+        BindPolicy { answers: vec![], batch: 1, order: vec![], enabled: false, ping_first: false }
     }
 }
 
